@@ -50,7 +50,7 @@ def run(tier):
     rnd = random.Random(core.seed())
     # the loop of _solve with SYMBOLIC times (start, save times, stop time, iteration limit, every step): Apalache, bounded in
     # the number of loop iterations only
-    core.apalache_suite(rep, "Apa_Driver", ["InvSnapshots", "InvNoneMissed", "InvFirstStop", "InvCounts"],
+    core.apalache_suite(rep, "Apa_Driver", ["InvSnapshots", "InvNoneMissed", "InvFirstStop", "InvCounts", "InvMaxit"],
                         "model level, beyond the lattice: Apa_Driver.tla checks the snapshot / stop / counting clauses of the driver "
                         "loop with Apalache/Z3 for EVERY integer starting time, up to three save times, stop time, iteration limit "
                         "and time step, over the first %d loop iterations" % (5 if tier == "quick" else 11),
